@@ -832,8 +832,18 @@ class Maps:
         base = cls.f.get('base')
         if star is not None:
             raise OutOfSubset('dict(*xs)')
-        ex.use('assumed contract:%s(d) / %s(**kw) is a new mapping of that class holding exactly the given items in the given order '
-               '(dict.__init__; keyword keys must be strings)' % (base, base))
+        own_ctor, c = False, base
+        while c is not None and c in self.classes:
+            mod_, cdef_, nxt_ = self.classes[c]
+            own_ctor = own_ctor or any(isinstance(n, ast.FunctionDef) and n.name in ('__init__', '__new__') for n in cdef_.body)
+            c = nxt_
+        if own_ctor:
+            ex.use('assumed contract:%s(d) / %s(**kw) is a new mapping of that class holding exactly the given items in the given order '
+                   '(the class defines its own constructor; keyword keys must be strings)' % (base, base))
+        else:
+            ex.use('axiom:%s(d) / %s(**kw) - a dict subclass that defines neither __new__ nor __init__, so this is dict.__new__ + dict.__init__ - is a new mapping of '
+                   'that class holding exactly the given items in the given order (keyword keys must be strings; subclasses that override the constructor are '
+                   'outside the contract)' % (base, base))
         pd = PDict.empty()
         if len(args) == 1 and args[0].kind == 'pdict':
             pd = args[0].pd
